@@ -20,10 +20,10 @@ Clauses (finding keys)
   C07.strict_prefix_matches_reference      a < b  <=>  a <= b and some leaf of a lies over a non-leaf node of b
   C07.operators_consistent                 <= / < / >= / > / is_suffix are is_prefix and its converses
   C07.order_reflexive, C07.order_transitive, C07.order_antisymmetric (up to dict kind / key order / maxlen)
+  C07.unexpected_exception                 anything else raised while evaluating a pair
 """
 from __future__ import annotations
 
-import itertools
 import random
 
 import optree
@@ -234,7 +234,10 @@ def run(tier: str, seed: int) -> BoundedReport:
 
     def go(name, pd, fd, o):
         c = Case(pd, fd, o)
-        eval_case(c, bag, stats)
+        try:
+            eval_case(c, bag, stats)
+        except Exception as e:   # noqa: BLE001 - e.g. repr() of a returned object raising; never crash the monitor
+            bag.add('C07.unexpected_exception', f'{c.label()}: {U.exc_name(e)}', c.head() + 'repr((r1, r2, r2s, r3))\nsys.exit(0)\n')
         bag.seen((U.freeze(pd), U.freeze(fd), U.opt_key(o)))
         groups[name] = groups.get(name, 0) + 1
         if groups[name] in (1, 40):
